@@ -136,5 +136,7 @@ def run(ctx, rep):
         rep.add(o)
         n_real += 1
     rep.floor("fallible entropy-layer call sites on the encode path", n_real, tab["dropped_floor"])
+    from .C01 import wiresig
+    wiresig(ctx, rep, ids=("rans_table", "rans_end", "symbols", "tagged", "raw"))
     for s_ in stale:
         rep.note("stale allow entry: " + s_)
